@@ -1,5 +1,5 @@
 """Helpers shared by the obligation modules."""
-from vf.engine.driver import assume, cover, Refute  # noqa: F401
+from vf.engine.driver import assume, cover, known, Refute  # noqa: F401
 
 BOUNDARY32 = [0, 1, 2 ** 15, 2 ** 16 - 1, 2 ** 16, 2 ** 31, 2 ** 32 - 1]
 BOUNDARY16 = [0, 1, 255, 256, 2 ** 15, 2 ** 16 - 1]
